@@ -31,6 +31,8 @@ type Obligation struct {
 	Model   string
 	Output  string
 	File    string
+	replay  *ReplayCtx
+	rets    []*SVal
 }
 
 // Exec verifies one top-level function.
@@ -58,6 +60,8 @@ type Exec struct {
 	sumInst  map[string]bool
 	stack    []*ssa.Function
 	usedContracts map[string]bool
+	replayCtx     *ReplayCtx
+	curRets       []*SVal
 }
 
 type Frame struct {
@@ -350,7 +354,7 @@ func (fr *Frame) oblige(kind, detail, cond string, clause string) {
 	}
 	if !x.discover {
 		x.obls = append(x.obls, &Obligation{Name: name, Kind: kind, Fn: x.fnKey, Props: x.props, Pos: x.em.Mark(),
-			Goal: sAnd(fr.curReach, sNot(cond)), Expect: "unsat", Clause: clause, em: x.em})
+			Goal: sAnd(fr.curReach, sNot(cond)), Expect: "unsat", Clause: clause, em: x.em, replay: x.replayCtx, rets: x.curRets})
 	}
 	x.em.Assert(sImp(fr.curReach, cond))
 }
